@@ -486,6 +486,7 @@ Lemma rd_quoted_hashable : forall D key bs, unhashable (rd_quoted L D key bs) = 
 Proof.
   intros D key bs. unfold rd_quoted. destruct (_ && _); [|reflexivity]. unfold quoted_key.
   destruct (eqbl bs t_true); [reflexivity|]. destruct (eqbl bs t_false); [reflexivity|].
+  destruct (Verif.C09.Model.jsonIsNumberLiteral bs); [|reflexivity].
   destruct (naked_num L D bs) as [i| |] eqn:E; try reflexivity. eapply naked_num_scalar; eauto.
 Qed.
 
